@@ -748,6 +748,11 @@ func (w *c19Walk) stmt(st ast.Stmt) error {
 					p := strings.TrimPrefix(base, w.dst+".")
 					nkey, ok := w.spec.nested[p]
 					if !ok {
+						// a field of an object the copy already owns (cc.httpClient = &client; cc.httpClient.Transport = …):
+						// fine when that object was made for the copy, a write into the original's object otherwise
+						if f, known := x.structs[w.spec.key].byName[p]; known && (f.how == "rebuilt" || f.how == "cloned") && w.pos[p].IsValid() && s.Pos() > w.pos[p] {
+							continue
+						}
 						return fmt.Errorf("%s.Clone: assignment to %s.%s, which the extractor does not track", w.spec.recv, base, lt.Sel.Name)
 					}
 					if _, ok := x.structs[nkey].byName[lt.Sel.Name]; !ok {
